@@ -260,6 +260,29 @@ def check(ctx: Ctx):
     ok = ok and len(r) == 1 and norm(r[0].value) == "ComputationPseudoTree(roots)"
     ctx.check(ok, "R-FOREST", "a DFS tree is built from the remaining variables until none is left; each tree's variables are removed; all roots kept", build, wl[0] if wl else build.node,
               "disconnected graphs yield a forest: every variable must end up in exactly one tree")
+    # the forest loop traverses `constraints` once per tree (and per node) and shrinks `variables`: both must be private, re-iterable lists in either
+    # case (dcop / explicit collections, which may be one-shot iterables) before the loop starts
+    from .. import iterrules
+
+    def _atoms(src):
+        def atom(e):
+            t_ = norm(e)
+            if t_ == "dcop is not None":
+                return src == "dcop"
+            if t_ == "dcop is None":
+                return src != "dcop"
+            if t_ in ("constraints or variables is not None", "constraints is None or variables is None", "variables is None or constraints is None"):
+                return False
+            return None
+        return atom
+    mat = iterrules.materialised_before_loop(build.node, ["variables", "constraints"], {"dcop": _atoms("dcop"), "lists": _atoms("lists")})
+    want_m = {"dcop": {"variables": ("dcop.variables.values()", "variables"), "constraints": ("dcop.constraints.values()", "constraints")},
+              "lists": {"variables": ("variables",), "constraints": ("constraints",)}}
+    for case_, res in mat.items():
+        for nm_, src_ in res.items():
+            ctx.check(src_ in want_m[case_][nm_], "R-FOREST", f"forest builder ({case_}): `{nm_}` is a private list before the forest loop", build, wl[0] if wl else build.node,
+                      f"`{nm_}` is traversed again for every tree and node (and `variables` is emptied): given as a generator / filter it is exhausted after the first traversal, "
+                      f"given as the dcop's own container it would be emptied (materialised from: {src_})")
     # every root comes out of the DFS, and building nodes are only created there (no side path that skips neighbour / relation wiring)
     apps = [c for c in ast.walk(build.node) if isinstance(c, ast.Call) and norm(c.func) in ("roots.append", "roots.extend", "roots.insert")]
     okr = len(apps) == 1 and norm(apps[0].func) == "roots.append" and norm(apps[0].args[0]) == "root" and wl and any(n is apps[0] for n in ast.walk(wl[0])) and \
@@ -344,6 +367,7 @@ VARIANTS = [
     ("pseudo_parent_keeps_sender", _P, "                n for n in self._neighbors if n in token and n != sender", "                n for n in self._neighbors if n in token", "break", "R-DFS"),
     ("pseudo_parent_becomes_child", _P, "                    if n not in node.pseudo_parents:\n                        node.children.append(n)", "                    node.children.append(n)", "break", "R-DFS"),
     ("back_edge_propagates", _P, "                self.pseudo_children.append(sender)\n            return None", "                self.pseudo_children.append(sender)\n            return token", "break", "R-DFS"),
+    ("forest_constraints_not_materialised", _P, "        variables = list(variables)\n        constraints = list(constraints)\n", "        variables = list(variables)\n", "break", "R-FOREST"),
     ("forest_single_tree", _P, "    while len(variables) != 0:\n        root = _generate_dfs_tree(variables, constraints)", "    if len(variables) != 0:\n        root = _generate_dfs_tree(variables, constraints)", "break", "R-FOREST"),
     ("link_kind_from_wrong_list", _P, "                for c in n.pseudo_children:\n                    links[n.name].append(\n                        PseudoTreeLink(\"pseudo_children\", n.name, c.name)", "                for c in n.pseudo_parents:\n                    links[n.name].append(\n                        PseudoTreeLink(\"pseudo_children\", n.name, c.name)", "break", "R-LINKTABLE"),
     ("link_source_target_swapped", _P, "                    links[n.name].append(PseudoTreeLink(\"children\", n.name, c.name))", "                    links[n.name].append(PseudoTreeLink(\"children\", c.name, n.name))", "break", "R-LINKTABLE"),
